@@ -118,6 +118,22 @@ class NamePool:
         assert name_ok(name), (len(name), name)
         return name
 
+    def many_labels(self) -> str:
+        """A legal name made of very many short labels (up to 126 of them: 253 characters allow no more)."""
+        rng = self.rng
+        suffix = rng.choice(["local.", "_tcp.local.", "_sub._ipp._tcp.local."])
+        n = rng.choice([40, 63, 64, 65, 66, 100, 120, 123, 126])
+        labels: List[str] = []
+        total = len(suffix)
+        for _ in range(n):
+            ln = 1 if rng.random() < 0.85 else 2
+            if total + ln + 1 > 253:
+                break
+            labels.append(make_label(rng, ln, ASCII))
+            total += ln + 1
+        name = ".".join(labels) + "." + suffix
+        return name if name_ok(name) else "x.local."
+
     def variant(self, name: str) -> str:
         """A name related to an existing one: re-cased / sibling / child / parent."""
         rng = self.rng
@@ -148,6 +164,8 @@ class NamePool:
             n = self.variant(rng.choice(self.names))
         elif r < 0.63:
             n = self.near_limit()
+        elif r < 0.66:
+            n = self.many_labels()
         else:
             n = self.fresh()
         if n not in self.names:
